@@ -176,6 +176,10 @@ def select(files, tier):
 
 # ----------------------------------------------------------------------------- comparison with the Go reader
 
+# a member the reader drops: "missing-member:<kind>" here, "dropped-link:<kind>" in c06.py's check of the reader's own link parse
+ALIAS = {"missing-member:softlink": "dropped-link:softlink", "missing-member:extlink": "dropped-link:extlink",
+         "missing-member:dataset": "dropped-link:child", "missing-member:group": "dropped-link:child",
+         "missing-member:datatype": "dropped-link:child"}
 GOKIND = {"group": 1, "dataset": 2}
 KINDNAME = {1: "group", 2: "dataset", 3: "linkobject", 4: "datatype"}
 
@@ -258,16 +262,16 @@ def compare_file(rel, w, out, disc, stats):
         # ---- membership of groups
         if o["kind"] == 1:
             have = set(bytes.fromhex(c) for c in g.get("children") or [])
-            for nm in o["links"]:
+            for lt, nm in o["links"]:
                 stats["members_compared"] += 1
                 if nm not in have:
                     cp = norm_path(path.rstrip("/") + "/" + _s(nm))
                     if cp not in reported:
                         reported.add(cp)
                         wk = wpaths.get(cp)
-                        D(cp, "missing-member:" + (KINDNAME[wk["kind"]] if wk else "link"),
-                          "member %r of group %s (specification walk)" % (_s(nm), path), "absent, no error reported")
-            wl = set(o["links"])
+                        lk = {1: "softlink", 64: "extlink"}.get(lt) or (KINDNAME[wk["kind"]] if wk else "object")
+                        D(cp, "missing-member:" + lk, "member %r of group %s (specification walk)" % (_s(nm), path), "absent, no error reported")
+            wl = set(nm for _, nm in o["links"])
             for nm in have:
                 if nm not in wl:
                     D(norm_path(path.rstrip("/") + "/" + _s(nm)), "extra-member", "no such link in the file", "member %r returned" % _s(nm))
@@ -304,11 +308,22 @@ def compare_file(rel, w, out, disc, stats):
                     D(path, "shape", "dataspace type %d dims %s" % (o["space"], o["dims"]), "dataspace type %d dims %s" % (dst, g.get("dims")))
                 elif dst == 1 and list(g.get("dims") or []) != o["dims"]:
                     D(path, "shape", o["dims"], list(g.get("dims") or []))
-    # ---- nothing but what the file has
+    # ---- nothing but what the file has.  The walker lists an object under the first path it is reached by; a further hard link to it
+    # is a link name of the parent group, and the reader's object there must be the object at that header address
+    linkpaths = set()
+    for path, o in wpaths.items():
+        for lt, nm in o["links"]:
+            linkpaths.add(norm_path(path.rstrip("/") + "/" + _s(nm)))
+    byaddr = {o["addr"]: o for o in w["tree"]}
     for path, g in gobjs.items():
         if path not in wpaths and _gokind(g) in (1, 2, 4):
             par = path.rsplit("/", 1)[0] or "/"
-            if par in wpaths or path == "/":
+            if path in linkpaths:
+                stats["objects_under_a_second_hard_link"] += 1
+                o = byaddr.get(g.get("addr"))
+                if o is not None and o["kind"] != _gokind(g):
+                    D(path, "kind", KINDNAME[o["kind"]], g["kind"])
+            elif par in wpaths or path == "/":
                 D(path, "extra-member", "no such object in the file (specification walk)", "%s returned" % g["kind"])
 
 
@@ -343,6 +358,9 @@ def run_oracle(ctx, files, outs, known_idx):
             continue
         seen.add(key)
         rc = known_idx.get(key)
+        if rc is None and d["kind"] in ALIAS:
+            # the same (file, object) is listed under the label the DDL / link-message oracle of c06.py gives it
+            rc = known_idx.get((d["file"], d["path"], ALIAS[d["kind"]]))
         if rc is None:
             new.append(d)
         else:
